@@ -501,6 +501,32 @@ impl Prop for C20 {
         ]
         .boxed()
     }
+    fn fuzz_sanitize(k: &mut CtorCase) -> bool {
+        match k {
+            CtorCase::Build { c, r, delta, .. } => {
+                if let Dim::S(x) = c {
+                    *x %= 41;
+                }
+                if let Dim::S(x) = r {
+                    *x %= 41;
+                }
+                *delta = (*delta).clamp(-9, 9);
+            }
+            CtorCase::FromView { cols, rows, m, nested, .. } => {
+                *cols %= 13;
+                *rows %= 13;
+                m.iter_mut().for_each(|x| *x %= 4);
+                if let Some(n) = nested {
+                    n.iter_mut().for_each(|x| *x %= 4);
+                }
+            }
+            CtorCase::Convert { cols, rows, .. } | CtorCase::EqHash { cols, rows, .. } => {
+                *cols %= 13;
+                *rows %= 13;
+            }
+        }
+        true
+    }
     fn random_cases(tier: Tier) -> u64 {
         if tier == Tier::Quick { 40_000 } else { 1_000_000 }
     }
